@@ -126,16 +126,29 @@ func loadWithProbe(db *DB, dir string, concurr int) (res loadRes, stuck bool, in
 		s, err := db.N.LoadFromDisk(dir, concurr, nil)
 		ch <- loadRes{snap: s, err: err}
 	}()
-	wait := 300 * time.Millisecond
-	for i := 0; i < 12; i++ {
+	// The wall-clock only paces the sampling; the verdict "stuck" is the structural fact that
+	// every goroutine of the call is parked on a call-local synchronisation primitive, observed
+	// unchanged (same goroutines, same states) in four consecutive samples.
+	wait := 250 * time.Millisecond
+	lastSig, same := "", 0
+	for i := 0; i < 40; i++ {
 		select {
 		case res = <-ch:
 			return res, false, false
 		case <-time.After(wait):
-			if loaderStuck() {
-				return res, true, false
+			sig, parked, _ := loaderSample()
+			if parked && sig == lastSig {
+				same++
+				if same >= 3 {
+					return res, true, false
+				}
+			} else {
+				same = 0
 			}
-			wait *= 2
+			lastSig = sig
+			if wait < 2*time.Second {
+				wait += wait / 2
+			}
 		}
 	}
 	return res, false, true
